@@ -11,7 +11,7 @@ every ||= &&= ??= x target kind (variable, property, element, absent property) x
 receivers x an argument pool with undefined, NaN, +-Infinity, negative, fractional and out-of-range values (absent vs explicit
 undefined distinguished) and states the result ECMA-262 prescribes."""
 import json, os, random, time
-import vlib, minijs as M, minijs_gen as G, mjcheck, jslib
+import vlib, minijs as M, minijs_gen as G, mjcheck, jslib, mapset
 from vlib import log
 
 OPS = ["+", "-", "*", "%", "<", "<=", ">", ">=", "==", "!=", "===", "!=="]
@@ -124,15 +124,22 @@ def main(tier):
         for P in progs[:1]:
             c.sample({"family": label, "source": M.ts_source(P)[:600], "expected": M.expected_events(exp[P["id"]])})
     # ---- built-in library: index arithmetic of the array and string methods (JSLib.tla enumerates every call)
-    lib = dict(cases=0, agree=0, spec_vs_node=0, methods=0) if os.environ.get("VERIF_SKIP_LIB") else jslib.check(c, exe, "quick" if quick else "full", jslib.QUICK_ARGS if quick else jslib.FULL_ARGS, ["array", "string"])
+    lib = dict(cases=0, agree=0, spec_vs_node=0, methods=0) if os.environ.get("VERIF_SKIP_LIB") else jslib.check(c, exe, "quick" if quick else "full", jslib.QUICK_ARGS if quick else jslib.FULL_ARGS, ["array", "string", "math"])
     log("library family: %d calls of %d methods, %d agree with JSLib.tla, %d excluded (spec disagrees with the reference engine)" % (lib["cases"], lib["methods"], lib["agree"], lib["spec_vs_node"]))
     if lib["spec_vs_node"] > 0.03 * lib["cases"]:
         vlib.tool_error("JSLib.tla disagrees with the reference engine on %d of %d calls: the specification needs repair" % (lib["spec_vs_node"], lib["cases"]))
     total += lib["cases"]; nontrivial += lib["agree"]
+    # ---- Map / Set: MapSet.tla (ordered entry list, SameValueZero keys, live iteration) - every call history up to a length
+    ms = dict(histories=0, agree=0, spec_vs_node=0, violations=0) if os.environ.get("VERIF_SKIP_LIB") else mapset.check(c, exe, quick)
+    log("Map/Set family: %d call histories, %d agree with MapSet.tla, %d excluded (spec disagrees with the reference engine)" % (ms["histories"], ms["agree"], ms["spec_vs_node"]))
+    if ms["spec_vs_node"] > 0.03 * max(1, ms["histories"]):
+        vlib.tool_error("MapSet.tla disagrees with the reference engine on %d of %d histories" % (ms["spec_vs_node"], ms["histories"]))
+    total += ms["histories"]; nontrivial += ms["agree"]
     if J.stats["judged"] and J.stats["spec_disagrees_with_reference_engine"] > 0.03 * (J.stats["judged"] + J.stats["spec_disagrees_with_reference_engine"]):
         vlib.tool_error("MiniJS.tla disagrees with the reference engine on more than 3%% of the programs (%d): the specification needs repair" % J.stats["spec_disagrees_with_reference_engine"])
-    c.cov["traces_validated_against_impl"] = J.stats["agree"] + lib["agree"]
+    c.cov["traces_validated_against_impl"] = J.stats["agree"] + lib["agree"] + ms["agree"]
     c.cov["library_calls"] = lib
+    c.cov["mapset_histories"] = ms
     c.cov["evaluations"] = total
     c.cov["distinct_nontrivial"] = nontrivial
     c.cov["programs"] = total
